@@ -6,6 +6,7 @@ import (
 	"go/token"
 	"go/types"
 	"math"
+	"strings"
 
 	"golang.org/x/tools/go/ssa"
 )
@@ -171,8 +172,54 @@ func (ex *Exec) jump(st *State, fr *Frame, to *ssa.BasicBlock, symbolic bool) {
 	}
 }
 
+// forceSymLens: slices of symbolic length (b[:n] with many feasible n) are understood by slicing, len, cap, copy
+// and by instructions that merely move values. Before any other instruction uses one as an operand its length is
+// case split; this happens as a step of its own (the instruction is then executed at the next step) so that the
+// register update does not precede a decision of the instruction itself. Returns true when it did something.
+func (ex *Exec) forceSymLens(st *State, fr *Frame, in ssa.Instruction) bool {
+	switch x := in.(type) {
+	case *ssa.Slice, *ssa.Store, *ssa.Phi, *ssa.MakeInterface, *ssa.Return, *ssa.Extract, *ssa.ChangeType,
+		*ssa.MakeClosure, *ssa.Send, *ssa.If, *ssa.Jump, *ssa.UnOp, *ssa.FieldAddr, *ssa.Field, *ssa.Defer, *ssa.Go,
+		*ssa.MapUpdate, *ssa.DebugRef, *ssa.Alloc, *ssa.RunDefers, *ssa.Panic, *ssa.TypeAssert, *ssa.ChangeInterface:
+		return false
+	case *ssa.BinOp:
+		return false // slices only compare with nil
+	case *ssa.Call:
+		switch f := x.Call.Value.(type) {
+		case *ssa.Builtin:
+			switch f.Name() {
+			case "len", "cap", "copy":
+				return false
+			}
+		case *ssa.Function:
+			if _, ok := intrinsics[ex.prog.funcName(f)]; !ok && f.Blocks != nil {
+				return false
+			}
+		default:
+			return false
+		}
+	}
+	var buf [12]*ssa.Value
+	for _, op := range in.Operands(buf[:0]) {
+		if *op == nil {
+			continue
+		}
+		switch (*op).(type) {
+		case *ssa.Const, *ssa.Global, *ssa.Function, *ssa.Builtin:
+			continue
+		}
+		if s, ok := ex.get(fr, *op).(SliceVal); ok && s.SymLen() {
+			ex.set(fr, *op, ex.forceLen(st, s))
+			return true
+		}
+	}
+	return false
+}
+
 func (ex *Exec) exec(st *State, co *Coro, fr *Frame, in ssa.Instruction) {
-	_ = ex.tt
+	if st.hasSymLen && ex.forceSymLens(st, fr, in) {
+		return
+	}
 	switch x := in.(type) {
 	case *ssa.DebugRef:
 		fr.ip++
@@ -510,6 +557,16 @@ func (ex *Exec) invoke(st *State, co *Coro, fr *Frame, fv *FuncVal, args []Value
 	if fv.Fn == nil {
 		unsup("no intrinsic for %s", name)
 	}
+	if len(ex.cfg.CutCalls) > 0 && fv.Fn.Pkg != nil {
+		pp := fv.Fn.Pkg.Pkg.Path()
+		for _, c := range ex.cfg.CutCalls {
+			if strings.HasPrefix(pp, c) {
+				st.fail = &Failure{Kind: "cut", ID: c}
+				st.done = true
+				panic(pathEnd{})
+			}
+		}
+	}
 	if fv.Fn.Blocks == nil {
 		unsup("function without body and without intrinsic: %s", name)
 	}
@@ -671,6 +728,13 @@ func (ex *Exec) sizeValue(st *State, t *Term, why string, elem types.Type) (int,
 		big := ex.tt.Slt(C(64, uint64(st.allocLimit)/sz), t64)
 		r := ex.check(st.pc, big)
 		if r == Sat {
+			// prefer a witness whose allocation is unmistakable in a native replay (limit + 16 MiB)
+			ex.donePending()
+			huge := ex.tt.Slt(C(64, (uint64(st.allocLimit)+(16<<20))/sz), t64)
+			if ex.check(st.pc, huge) != Sat {
+				ex.donePending()
+				ex.check(st.pc, big)
+			}
 			var model Model
 			if ex.lastFromAlt {
 				model = ex.alt.GetModel(ex.tt.Vars)
@@ -775,7 +839,7 @@ func (ex *Exec) execIndexAddr(st *State, fr *Frame, x *ssa.IndexAddr) {
 			return
 		}
 		if sym != nil {
-			if n <= 256 {
+			if n <= 256 && ex.scalarElems(x.Type().(*types.Pointer).Elem()) {
 				ex.set(fr, x, PtrVal{Obj: b.Obj, Path: b.Path, Sym: ex.tt.ZExt(sym, 64)})
 				fr.ip++
 				return
@@ -865,8 +929,14 @@ func (ex *Exec) execSlice(st *State, fr *Frame, x *ssa.Slice) {
 		return t
 	}
 	// bounds(length/cap limits): 0 <= lo <= hi <= max <= limit, evaluated symbolically first
+	var lenDefaultT *Term // overrides lenDefault (slice of symbolic length)
+	symHigh := false      // the caller can represent a symbolic high bound
+	var symHighT *Term    // set when the high bound stayed symbolic
 	checkBounds := func(lenDefault, limit int) (int, int, int, bool) {
 		lT, hT, mT := C(64, 0), C(64, uint64(lenDefault)), C(64, uint64(limit))
+		if lenDefaultT != nil {
+			hT = lenDefaultT
+		}
 		if lo != nil {
 			lT = s64(lo)
 		}
@@ -883,7 +953,16 @@ func (ex *Exec) execSlice(st *State, fr *Frame, x *ssa.Slice) {
 			return 0, 0, 0, false
 		}
 		l := int(ex.concretize(st, lT, "slice low"))
-		h := int(ex.concretize(st, hT, "slice high"))
+		var h int
+		if symHigh && !hT.IsConst() {
+			if v, ok := ex.concretizeUpTo(st, hT, "slice high", 8); ok {
+				h = int(v)
+			} else {
+				symHighT = hT
+			}
+		} else {
+			h = int(ex.concretize(st, hT, "slice high"))
+		}
 		m := int(ex.concretize(st, mT, "slice max"))
 		return l, h, m, true
 	}
@@ -902,6 +981,10 @@ func (ex *Exec) execSlice(st *State, fr *Frame, x *ssa.Slice) {
 		if b.Kind != SliceNormal {
 			unsup("slicing blob/iota slice")
 		}
+		if b.SymLen() {
+			lenDefaultT = b.LenT
+		}
+		symHigh = !b.IsNil()
 		l, h, m, ok := checkBounds(b.Len, b.Cap)
 		if !ok {
 			return
@@ -909,7 +992,13 @@ func (ex *Exec) execSlice(st *State, fr *Frame, x *ssa.Slice) {
 		n := b
 		n.Off = b.Off + l
 		n.Len = h - l
+		n.LenT = nil
 		n.Cap = m - l
+		if symHighT != nil {
+			n.Len = symLenPoison
+			n.LenT = tt.Sub(symHighT, C(64, uint64(l)))
+			st.hasSymLen = true
+		}
 		if b.IsNil() {
 			n = SliceVal{}
 		}
